@@ -75,6 +75,7 @@ func ruleC20(c *Check) {
 	c.nilMapWrites(fs)
 	c.fractionValidators("C20.3")
 	c.panickingConversions(fs)
+	c.moduleWiring("C20.4", map[string]bool{"endblock": true})
 	// the callbacks of an owning module are called without a nil test: contexts are created only for modules that registered both
 	c.constructorRules("C20.3", map[string]bool{"callbacks": true})
 	// slicing of scanned store keys is justified above by the key grammar: decide the cut positions (K4) here as well, for every
